@@ -15,7 +15,7 @@ RULE = (
     "call; non-trivial = behaviour digest differs from the reference run"
 )
 ASSUMPTIONS = _x1.X1_ASSUMPTIONS + [
-    "stop() and clear_sub() of the fake devices never fail; an unstage() that the fault plan makes raise counts as an unstage attempt of that device",
+    "stop() never fails, clear_sub() can fail only when a plan's 'unmonitor' message asks for it (not in the engine's own clean-up); an unstage() that the fault plan makes raise counts as an unstage attempt of that device",
 ]
 
 F = ("raise", "fail")
